@@ -159,6 +159,18 @@ func (s *kvState) apply(index uint64, cmd []byte) sm.Result {
 	if len(cmd) > 0 && cmd[len(cmd)-1]%3 == 0 {
 		r.Data = []byte(fmt.Sprintf("d%x", s.H&0xffff))
 	}
+	// boundary results: the zero Result (a put that returns nothing, a fetch-and-add that returns
+	// the previous value 0), a zero Value with data, an empty non-nil Data
+	if len(cmd) > 1 {
+		switch cmd[len(cmd)-2] % 7 {
+		case 0:
+			r = sm.Result{}
+		case 1:
+			r.Value = 0
+		case 2:
+			r.Data = []byte{}
+		}
+	}
 	return r
 }
 
